@@ -529,4 +529,134 @@ example : let c := crun (Cluster.init false 1 : Cluster Nat) cevsRecover2
     c.known = [0] ∧ (c.pools 0).conns = [0] ∧ ((c.pools 0).net 0).userMark = false ∧
     ((c.pools 0).net 0).serverKs = some 3 ∧ ((c.pools 0).net 0).queue = [] := by decide
 
+/-! ## E. The session layer: `Session::use_keyspace` as the code has it (store the name, validate, fan out)
+
+The name is stored in `Session.keyspace_name` BEFORE it is validated and before anything is acknowledged; the
+stored name is never consulted. The theorems below say that no call is answered from what an earlier call left
+behind: an invalid name is rejected every time, and an Ok answer is the answer of the call's OWN fan-out, whose
+own `USE` statements were written and acknowledged. -/
+
+/-- **An invalid name is rejected every time**, whatever the session has recorded (the very same name included):
+the call returns the validation error at once and nothing happens in the cluster - no fan-out, no pool request,
+no statement written on any connection. (The name IS stored: `get_keyspace` reports it - a wart, not a send.) -/
+theorem session_invalid_name_rejected_every_time (s : Session) (name : String) (cs : Bool) (e : BadName)
+    (h : VerifiedName.new name cs = .error e) :
+    let s' := sstep s (.call name cs)
+    s'.cluster = s.cluster ∧ s'.calls = ⟨name, cs, .rejected e⟩ :: s.calls ∧ s'.recorded = some name := by
+  simp only [sstep, h]
+  exact ⟨trivial, trivial, trivial⟩
+
+/-- **Every call with a valid name starts its own fan-out**, whatever the session has recorded (the very same
+name included, whether the earlier call succeeded, failed, timed out or is still running, and whatever the
+flag): the worker handles a fresh request for exactly this (name, flag), with a fresh id. -/
+theorem session_call_starts_its_own_fanout (s : Session) (name : String) (cs : Bool) (v : VerifiedName)
+    (h : VerifiedName.new name cs = .ok v) :
+    let s' := sstep s (.call name cs)
+    v = ⟨name, cs⟩ ∧ s'.cluster = cstep s.cluster (.useKs ⟨name, cs⟩) ∧
+    s'.calls = ⟨name, cs, .fanout s.cluster.fanouts.length⟩ :: s.calls ∧
+    s'.cluster.fanouts.length = s.cluster.fanouts.length + 1 ∧
+    (s'.cluster.fanouts.head?.map fun f => (f.id, f.ks, f.sent, f.resp)) =
+      some (s.cluster.fanouts.length, ⟨name, cs⟩, [], none) := by
+  have hv := verifiedName_new_ok h
+  subst hv
+  simp only [sstep, h, cstep, List.length_cons, List.head?_cons, Option.map_some]
+  exact ⟨trivial, trivial, trivial, trivial, trivial⟩
+
+/-- Different calls never share a fan-out, and different fan-outs never share a pool task. -/
+theorem session_calls_have_distinct_fanouts (perShard : Bool) (target : Nat) (evs : List SEv) :
+    let s := srun (Session.init perShard target) evs
+    (s.calls.Pairwise fun a b => ∀ fid, a.outcome = .fanout fid → b.outcome ≠ .fanout fid) ∧
+    ∀ f ∈ s.cluster.fanouts, ∀ f' ∈ s.cluster.fanouts, ∀ n tid,
+      f.sent.lookup n = some tid → f'.sent.lookup n = some tid → f.id = f'.id := by
+  intro s
+  refine ⟨(sinv_run perShard target evs).distinct, ?_⟩
+  obtain ⟨cevs, hc⟩ := srun_cluster perShard target evs
+  show SentInj s.cluster
+  rw [hc]; exact sentInj_run perShard target cevs
+
+/-- **session_ok_means_own_use_acked**: for every history of calls (repeated names, any flags, invalid names,
+overlapping calls) and cluster events: a call that has been answered Ok owns a fan-out for exactly its (name,
+flag) that was answered Ok; on every node known when the worker handled the call there is a pool task created
+by THIS fan-out's delivery (shared with no other fan-out) that was answered Ok or with a broken-connection
+error; and every connection published in that pool when the request arrived, unless broken, had this task's
+own `USE` written on it and acknowledged. No call is answered from a previous call's state. -/
+theorem session_ok_means_own_use_acked (perShard : Bool) (target : Nat) (evs : List SEv) :
+    let s := srun (Session.init perShard target) evs
+    ∀ c ∈ s.calls, s.answer c = some .ok →
+      ∃ f ∈ s.cluster.fanouts, c.outcome = .fanout f.id ∧ f.ks = ⟨c.name, c.caseSensitive⟩ ∧ f.resp = some .ok ∧
+        ∀ n ∈ f.nodes, ∃ t ∈ (s.cluster.pools n).tasks,
+          f.sent.lookup n = some t.id ∧ t.ks = f.ks ∧ (t.resp = some .ok ∨ t.resp = some (.err .broken)) ∧
+          (∀ f' ∈ s.cluster.fanouts, f'.sent.lookup n = some t.id → f'.id = f.id) ∧
+          ∀ i ∈ t.snapshot, ((s.cluster.pools n).net i).broken = false →
+            i ∈ t.submitted ∧ t.results.lookup i = some (.ok ()) ∧ f.ks ∈ ((s.cluster.pools n).net i).acked := by
+  intro s c hc hans
+  have hsi := sinv_run perShard target evs
+  obtain ⟨cevs, hcl⟩ := srun_cluster perShard target evs
+  obtain ⟨h1, h2, _, _⟩ := cluster_run_invs perShard target cevs
+  have hinj := sentInj_run (K := VerifiedName) perShard target cevs
+  rw [← hcl] at h1 h2 hinj
+  unfold Session.answer at hans
+  cases hout : c.outcome with
+  | rejected e => rw [hout] at hans; cases hans
+  | fanout fid =>
+    rw [hout] at hans
+    simp only at hans
+    cases hfind : s.cluster.fanouts.find? (·.id = fid) with
+    | none => rw [hfind] at hans; cases hans
+    | some f =>
+      rw [hfind] at hans
+      simp only [Option.bind_some] at hans
+      have hfm := List.mem_of_find?_eq_some hfind
+      have hfid : f.id = fid := by simpa using List.find?_some hfind
+      obtain ⟨_, f2, hf2, hid2, hks2⟩ := hsi.owns c hc fid hout
+      have : f2 = f := unique_fid h1.fids hf2 hfm (by rw [hid2, hfid])
+      subst this
+      refine ⟨f2, hfm, by rw [hfid], hks2, hans, fun n hn => ?_⟩
+      obtain ⟨t, ht, hl, hresp⟩ := h2.fan_id f2 hfm hans n hn
+      obtain ⟨t2, ht2, hid', hks'⟩ := h1.sent f2 hfm n t.id hl
+      have : t2 = t := unique_id (h1.pools n).ids ht2 ht hid'
+      subst this
+      refine ⟨t2, ht, hl, hks', hresp, fun f' hf' hl' => hinj f' hf' f2 hfm n t2.id hl' hl, fun i hi hb => ?_⟩
+      have hok := results_ok_of_resp (h1.pools n) t2 ht hresp i hi hb
+      refine ⟨(h1.pools n).res_sub t2 ht i _ hok, hok, ?_⟩
+      rw [← hks']
+      exact (h1.pools n).res_ok t2 ht i hok
+
+/-- The session's cluster is a cluster of §D: all its theorems apply - in particular, when the newest call's
+fan-out did not overlap an older one and was answered Ok, every published live connection of every known node
+has the keyspace (`cluster_published_has_keyspace`). -/
+theorem session_published_has_keyspace (perShard : Bool) (target : Nat) (evs : List SEv) :
+    let s := srun (Session.init perShard target) evs
+    s.cluster.overlap = false → ∀ F, s.cluster.fanouts.head? = some F → F.resp = some .ok →
+      ∀ n ∈ s.cluster.known, ∀ i ∈ (s.cluster.pools n).conns, ((s.cluster.pools n).net i).broken = false →
+        ((s.cluster.pools n).net i).userMark = false →
+        ((s.cluster.pools n).net i).serverKs = some F.ks ∧ ((s.cluster.pools n).net i).queue = [] := by
+  intro s
+  obtain ⟨cevs, hcl⟩ := srun_cluster perShard target evs
+  show s.cluster.overlap = false → _
+  rw [hcl]
+  exact cluster_published_has_keyspace perShard target cevs
+
+/-! non-vacuity: `use_keyspace("ks")` is rejected by the server (the keyspace does not exist yet), the retry
+with the SAME name gets its own fan-out (id 1), its own pool task (id 1), its own `USE`, and succeeds; an invalid
+name passed twice is rejected twice. -/
+private def ksName : VerifiedName := ⟨"ks", false⟩
+private def sevs : List SEv :=
+  [.cluster (.addNode false 1), .cluster (.pool 0 .refill), .cluster (.pool 0 (.opened 0 none none)),
+   .call "ks" false, .cluster (.deliver 0 0), .cluster (.pool 0 (.taskSubmit 0 0)), .cluster (.pool 0 (.serve 0 .dbError)),
+   .cluster (.pool 0 (.taskFinish 0)), .cluster (.fanoutFinish 0),
+   .call "bad name" false, .call "bad name" false,
+   .call "ks" false, .cluster (.deliver 1 0), .cluster (.pool 0 (.taskSubmit 1 0)), .cluster (.pool 0 (.serve 0 .ack)),
+   .cluster (.pool 0 (.taskFinish 1)), .cluster (.fanoutFinish 1)]
+example : let s := srun (Session.init false 1) sevs
+    s.calls.map (·.outcome) = [.fanout 1, .rejected .illegalCharacter, .rejected .illegalCharacter, .fanout 0] ∧
+    s.calls.map s.answer = [some .ok, none, none, some (.err .dbError)] ∧
+    s.cluster.fanouts.map (·.sent) = [[(0, 1)], [(0, 0)]] ∧ s.cluster.overlap = false ∧
+    ((s.cluster.pools 0).net 0).serverKs = some ksName ∧ ((s.cluster.pools 0).net 0).acked = [ksName] ∧
+    s.recorded = some "ks" := by decide
+/-- after the failed first call the name is already recorded although no connection is in the keyspace -/
+example : let s := srun (Session.init false 1) (sevs.take 9)
+    s.recorded = some "ks" ∧ s.calls.map s.answer = [some (.err .dbError)] ∧
+    ((s.cluster.pools 0).net 0).serverKs = none := by decide
+
 end ScyllaVerif.Props.C20
